@@ -46,7 +46,7 @@ def _reserved_table(ctx: Ctx) -> (str, Set[str]):
     raise AnalysisError("anchor lost: table of reserved keyword names in event.py")
 
 
-def rule_reserved(ctx: Ctx):
+def rule_reserved(ctx: Ctx, rule: str = "C07.reserved"):
     rep = ctx.rep
     tname, table = _reserved_table(ctx)
     ek = ctx.p.find_fn("EventData.extended_kwargs")
@@ -61,10 +61,10 @@ def rule_reserved(ctx: Ctx):
             if dm is not None:
                 keys |= {k_ for k_, _, _ in dm.writes if k_ not in ("**", "?")}
     mod = ctx.p.module("statemachine/event.py")
-    rep.check(table == DOCUMENTED_BUILTINS, "C07.reserved", f"{mod.rel} {tname}",
+    rep.check(table == DOCUMENTED_BUILTINS, rule, f"{mod.rel} {tname}",
               "the reserved-name table is exactly the documented built-in parameters", f"{mod.rel}::{tname}",
               f"{tname} = {sorted(table)}", missing=sorted(DOCUMENTED_BUILTINS - table), extra=sorted(table - DOCUMENTED_BUILTINS))
-    rep.check(keys == table, "C07.reserved", ek.loc(), "the keys injected by extended_kwargs are exactly the reserved names", ek.key,
+    rep.check(keys == table, rule, ek.loc(), "the keys injected by extended_kwargs are exactly the reserved names", ek.key,
               f"injected keys {sorted(keys)} vs table {sorted(table)}", injected=sorted(keys))
     call = ctx.fn("Event.__call__")
     n = 0
@@ -91,12 +91,12 @@ def rule_reserved(ctx: Ctx):
                     ok, detail = _filter_loop(p, v.id, tname)
                     if ok is None:
                         continue  # infeasible / no iteration on this path: nothing to decide
-                rep.check(ok, "C07.reserved", e.loc(), "user keyword arguments are stored without the reserved names "
+                rep.check(ok, rule, e.loc(), "user keyword arguments are stored without the reserved names "
                           "(built-ins cannot be overridden or leaked)", call.key, norm_stmt(e.node), kwargs=detail)
                 a = kw.get("args")
-                rep.check(a is not None and show(a) == "args", "C07.reserved", e.loc(), "positional arguments are stored unchanged",
+                rep.check(a is not None and show(a) == "args", rule, e.loc(), "positional arguments are stored unchanged",
                           call.key, norm_stmt(e.node))
-    rep.floor("C07.reserved", "TriggerData constructions in Event.__call__", n, 1)
+    rep.floor(rule, "TriggerData constructions in Event.__call__", n, 1)
 
 
 def _filter_loop(p, obj: str, tname: str):
@@ -139,7 +139,7 @@ def _filter_loop(p, obj: str, tname: str):
     return True, "explicit loop: copies (key, value) iff key not in " + tname
 
 
-def rule_layer(ctx: Ctx):
+def rule_layer(ctx: Ctx, rule: str = "C07.layer"):
     from ..shapes import dict_model
 
     rep = ctx.rep
@@ -147,28 +147,28 @@ def rule_layer(ctx: Ctx):
     for p in ctx.paths(ek, exc_edges="none"):
         evs = p.events
         if p.kind != "return":
-            rep.violation("C07.layer", ek.loc(), "extended_kwargs does not return", ek.key, p.kind)
+            rep.violation(rule, ek.loc(), "extended_kwargs does not return", ek.key, p.kind)
             continue
         dm = dict_model(p, p.value if isinstance(p.value, ast.Dict) else show(p.value))
         if dm is None and xshow(p.value, evs) == "self.trigger_data.kwargs":
-            rep.violation("C07.layer", ek.loc(), "extended_kwargs writes the built-ins into the user's own kwargs mapping instead of a copy "
+            rep.violation(rule, ek.loc(), "extended_kwargs writes the built-ins into the user's own kwargs mapping instead of a copy "
                           "(they leak into the trigger and into later candidate transitions)", ek.key, "kwargs = self.trigger_data.kwargs")
             continue
         if dm is None:
-            rep.unrecognised("C07.layer", ek.loc(), f"extended_kwargs returns `{xshow(p.value, evs)}`, not a mapping it built")
+            rep.unrecognised(rule, ek.loc(), f"extended_kwargs returns `{xshow(p.value, evs)}`, not a mapping it built")
         star_first = bool(dm.writes) and dm.writes[0][0] == "**" and xshow(dm.writes[0][1], evs) == "self.trigger_data.kwargs"
         if dm.base == "{}" and star_first:
             dm.base = "dict(self.trigger_data.kwargs)"  # `{**user_kwargs, builtins...}`
             dm.writes = dm.writes[1:]
         rep.check(dm.base in ("self.trigger_data.kwargs.copy()", "dict(self.trigger_data.kwargs)", "self.trigger_data.kwargs") or
-                  any(k_ == "**" and xshow(v, evs) == "self.trigger_data.kwargs" for k_, v, _ in dm.writes), "C07.layer", ek.loc(),
+                  any(k_ == "**" and xshow(v, evs) == "self.trigger_data.kwargs" for k_, v, _ in dm.writes), rule, ek.loc(),
                   "the mapping handed to callbacks starts from the user's keyword arguments", ek.key, f"kwargs = {dm.base}")
-        rep.check(dm.base != "self.trigger_data.kwargs", "C07.layer", ek.loc(),
+        rep.check(dm.base != "self.trigger_data.kwargs", rule, ek.loc(),
                   "the mapping handed to callbacks is a *copy* of the user's keyword arguments (built-ins do not leak into the trigger)", ek.key,
                   f"kwargs = {dm.base}")
         builtin_writes = [(k_, e) for k_, v, e in dm.writes if k_ in DOCUMENTED_BUILTINS]
         rep.check(len({k_ for k_, _ in builtin_writes}) >= len(DOCUMENTED_BUILTINS) and all(e.idx >= dm.created for _, e in builtin_writes),
-                  "C07.layer", ek.loc(), "every built-in key is written after the copy, into that copy", ek.key,
+                  rule, ek.loc(), "every built-in key is written after the copy, into that copy", ek.key,
                   f"{len(builtin_writes)} built-in writes into the mapping")
         first = min([e.idx for _, e in builtin_writes], default=dm.created)
         merges = [e for k_, v, e in dm.writes if k_ == "**" and e.idx >= first]
@@ -179,7 +179,7 @@ def rule_layer(ctx: Ctx):
                 pos = dm.writes.index((k_, v, e))
                 if any(kk in DOCUMENTED_BUILTINS for kk, _, _ in dm.writes[:pos]):
                     later.append(e)
-        rep.check(not later, "C07.layer", ek.loc(), "nothing merges user values over the built-ins afterwards", ek.key,
+        rep.check(not later, rule, ek.loc(), "nothing merges user values over the built-ins afterwards", ek.key,
                   "; ".join(e.show() for e in later))
 
 
@@ -218,6 +218,19 @@ def rule_adapter(ctx: Ctx):
     cm = ctx.fn("callable_method")
     closures = [f for f in cm.module.all_functions if f.parent is cm]
     rep.floor("C07.adapter", "adapter closures of callable_method", len(closures), 2)
+    # the signature is read from the callable that is called: from_callable must hand the parameter itself to
+    # inspect (a bound method unwrapped to its function would gain `self`)
+    fc = ctx.fn("SignatureAdapter.from_callable")
+    n_src = 0
+    for p in ctx.paths(fc, inline=None, exc_edges="none"):
+        for e in p.calls():
+            f = show(e.term.func)
+            if f.endswith(".from_callable") and "super()" in f:
+                n_src += 1
+                rep.check(bool(e.term.args) and show(e.term.args[0]) == fc.params[1], "C07.adapter", e.loc(),
+                          "the signature is taken from the very callable that will be called", fc.key, norm_stmt(e.node),
+                          argument=xshow(e.term.args[0], p.events) if e.term.args else None)
+    rep.floor("C07.adapter", "signature extraction sites in from_callable", n_src, 1)
     sigsrc = None
     for p in ctx.paths(cm, inline=None, exc_edges="none"):
         for e in p.of("bind"):
